@@ -433,7 +433,7 @@ pub fn json<K: SymK, const NN: usize, const L: usize>(lens: [usize; NN]) {
     // the last node has no right-going link, an earlier one has
     kani::cover!(NN < 2 || ((a[1][2] || a[1][3]) && !(a[3][0] || a[3][1] || a[3][2] || a[3][3])));
     // several right-going links from one node
-    kani::cover!(NN < 2 || (a[1][2] && a[1][3]));
+    kani::cover!(NN < 2 || (a[1][0] as u8 + a[1][1] as u8 + a[1][2] as u8 + a[1][3] as u8) >= 2);
     // link-free
     kani::cover!(!(a[1][0] || a[1][1] || a[1][2] || a[1][3] || a[3][0] || a[3][1] || a[3][2] || a[3][3]));
     core::mem::forget(g);
